@@ -313,6 +313,48 @@ impl Property for C17 {
             Family::random("depth-mixed", tier.n(6_000, 20_000), fam_mixed),
         ]
     }
+    /// the same boundary documents through the svgdx command, the limits given by its options
+    fn parent_phase(&self, tier: Tier, _seed: u64) -> crate::engine::ParentPhase {
+        use crate::props::frontends::{run_cli, run_dir, CLI_BIN};
+        let mut pp = crate::engine::ParentPhase::default();
+        if !std::path::Path::new(CLI_BIN).exists() {
+            pp.failures.push(("machinery:no-binaries".into(), format!("{CLI_BIN} missing: run ./run.sh setup"), serde_json::json!({})));
+            return pp;
+        }
+        let dir = run_dir("c17");
+        let d = Cfg::default();
+        // only the cases whose limit is handed over by configuration (not by a <config> element): that is what the options carry
+        let all: Vec<Case> = loop_cases(tier).into_iter().chain(var_cases(tier)).chain(depth_cases(tier)).filter(|c| c.loop_limit != d.loop_limit || c.var_limit != d.var_limit || c.depth_limit != d.depth_limit).collect();
+        let want = tier.n(240, 1500);
+        let step = (all.len() / want).max(1);
+        for (i, case) in all.iter().enumerate().filter(|(i, _)| i % step == 0) {
+            let cfg = Cfg { loop_limit: case.loop_limit, var_limit: case.var_limit, depth_limit: case.depth_limit, add_auto_styles: false, ..Cfg::default() };
+            let inp = dir.join(format!("d{i}.xml"));
+            if std::fs::write(&inp, &case.doc).is_err() {
+                continue;
+            }
+            let mut args = cfg.cli_args();
+            args.push(inp.to_string_lossy().to_string());
+            let r = run_cli(&args, None, &dir, 60.0);
+            let _ = std::fs::remove_file(&inp);
+            pp.evaluations += 1;
+            pp.nontrivial_hashes.push(crate::engine::hash_bytes(case.doc.as_bytes()) ^ (case.loop_limit as u64) << 40 ^ (case.var_limit as u64) << 20 ^ case.depth_limit as u64);
+            let accepted = r.code == Some(0);
+            let kind = case.what.split(':').take(2).collect::<Vec<_>>().join(":");
+            if r.signal.is_some() || r.timed_out {
+                pp.failures.push((format!("c17:cli:died:{kind}"), format!("{}: svgdx {} died (signal {:?}, timed out {})", case.what, args.join(" "), r.signal, r.timed_out), serde_json::json!({"doc": case.doc, "args": args})));
+            } else if accepted != case.expect_bodies.is_some() && pp.failures.len() < 3 {
+                pp.failures.push((
+                    format!("c17:cli:{}:{kind}", if accepted { "accepted-beyond-limit" } else { "rejected-within-limits" }),
+                    format!("{}: svgdx {} exited {:?}; the document is {} its limits\n--- stderr ---\n{}\n--- document ---\n{}", case.what, args[..args.len() - 1].join(" "), r.code, if case.expect_bodies.is_some() { "within" } else { "beyond" }, crate::run::trunc(&String::from_utf8_lossy(&r.stderr), 400), crate::run::trunc(&case.doc, 1500)),
+                    serde_json::json!({"doc": case.doc, "args": args}),
+                ));
+            }
+        }
+        pp.labels.push("cli:limit-options".into());
+        let _ = std::fs::remove_dir_all(&dir);
+        pp
+    }
     fn judge(&self, case: &Case, _strict: bool) -> Verdict {
         let cfg = Cfg { loop_limit: case.loop_limit, var_limit: case.var_limit, depth_limit: case.depth_limit, add_auto_styles: false, ..Cfg::default() };
         let r = transform(&case.doc, &cfg);
